@@ -199,6 +199,49 @@ static void run_qt (std::vector<std::string> &tok, std::string &out) {
   async_queue_destroy (q);
 }
 
+// ------------------------------------------------------------------ queue, blocked writers (deterministic: no luck needed)
+//   QB <cap> <producers> <mode>   the queue is filled, <producers> threads block in enqueue; then mode 0: the consumer drains;
+//   mode 1: clear(), then the consumer drains; mode 2: clear(), one enqueue by the consumer, then it drains. Deadline 3 s.
+static void run_qb (std::vector<std::string> &tok, std::string &out) {
+  size_t cap = strtoul (tok[1].c_str (), 0, 10); int np = atoi (tok[2].c_str ()); int mode = atoi (tok[3].c_str ());
+  async_queue_t *q = async_queue_create (cap, 16, ASYNC_QUEUE_BLOCK_WRITER);
+  if (!q) { out += "\"created\":0"; return; }
+  for (size_t i = 0; i < cap; i++) { int msg[2] = { -1, (int) i }; async_queue_enqueue (q, msg, sizeof msg); }
+  std::atomic<int> finished (0);
+  std::vector<std::thread> th;
+  for (int p = 0; p < np; p++)
+    th.emplace_back ([&, p] () { int msg[2] = { p, 0 }; async_queue_enqueue (q, msg, sizeof msg); finished++; });
+  usleep (30000);                       // all producers are blocked now (the queue is full)
+  int blocked_before = np - finished.load ();
+  int expect = np + (int) cap;
+  if (mode >= 1) { async_queue_clear (q); expect = np; }
+  if (mode == 2) { int msg[2] = { -2, 0 }; async_queue_enqueue (q, msg, sizeof msg); expect++; }
+  int got = 0;
+  long long deadline = now_us () + 3000000;
+  while (now_us () < deadline && (got < expect || finished.load () < np)) {
+    int msg[2]; size_t sz;
+    if (async_queue_dequeue (q, msg, sizeof msg, &sz)) got++;
+    else usleep (200);
+  }
+  int fin = finished.load ();
+  char b[200];
+  snprintf (b, sizeof b, "\"created\":1,\"blocked_before\":%d,\"finished\":%d,\"got\":%d,\"expect\":%d", blocked_before, fin, got, expect);
+  out += b;
+  if (fin < np) {
+    // release whoever is still blocked so that the threads can be joined: drain and signal through dequeues of fresh messages
+    for (int k = 0; k < 4 * np + 4 && finished.load () < np; k++) {
+      int msg[2] = { -3, k }; size_t sz;
+      async_queue_clear (q);
+      for (size_t i = 0; i < cap; i++) async_queue_enqueue (q, msg, sizeof msg);     // full again (never blocks: we are the only free thread)
+      async_queue_dequeue (q, msg, sizeof msg, &sz);                                  // a dequeue from a full queue signals in every version
+      usleep (2000);
+    }
+  }
+  if (finished.load () < np) { for (auto &t : th) t.detach (); return; }
+  for (auto &t : th) t.join ();
+  async_queue_destroy (q);
+}
+
 // ------------------------------------------------------------------ worker life cycle
 struct wk_ctx { int kind; std::atomic<long long> last_run_us; std::atomic<int> iterations; };
 static void *wk_proc (void *p) {
@@ -283,6 +326,7 @@ int main (int argc, char **argv) {
     if (tok[0] == "EL") run_el (tok, out);
     else if (tok[0] == "Q1") run_q1 (tok, out);
     else if (tok[0] == "QT") run_qt (tok, out);
+    else if (tok[0] == "QB") run_qb (tok, out);
     else if (tok[0] == "WK") run_wk (tok, out);
     else if (tok[0] == "TM") run_tm (tok, out);
     else out += "\"error\":\"unknown\"";
